@@ -1,5 +1,6 @@
 import SnootyVerif.Proofs.Flutter
 import SnootyVerif.Proofs.SpecInherit
+import SnootyVerif.Proofs.Constants
 import SnootyVerif.Gen.Types
 
 /-!
@@ -233,5 +234,43 @@ theorem merge_field (c b : Entry) (i : Nat) (hc : i < c.fields.length) (hb : i <
 
 example : resolveCategory [("child", ⟨some "base", [some "own", none]⟩), ("base", ⟨none, [some "b1", some "b2"]⟩)]
     = .ok [("child", ⟨some "base", [some "own", some "b2"]⟩), ("base", ⟨none, [some "b1", some "b2"]⟩)] := by rfl
+
+
+/-! ## `[constants]` expansion (`ProjectConfig.render_constants`) -/
+open SnootyVerif.Constants in
+/-- Every placeholder is either expanded from the constants available at that point or reported:
+the `ConstantNotDeclared` diagnostics of one source text are exactly its placeholder names that are
+not (yet) declared, in order. -/
+theorem constants_reported (env : List (String × String)) (segs : List Seg) :
+    (substitute env segs).2 = (refs segs).filter (fun n => (env.lookup n).isNone) :=
+  substitute_diags env segs
+
+open SnootyVerif.Constants in
+/-- A constant is expanded against the *already expanded* constants declared before it and nothing
+else: its value does not depend on its own or on later entries (a forward or self reference is
+undeclared there, hence reported and replaced, never left as raw `{+name+}` text). -/
+theorem constants_use_only_earlier (pre post : List (String × List Seg)) (k : String) (segs : List Seg) :
+    ∃ tail, (render (pre ++ (k, segs) :: post)).1 =
+      (render pre).1 ++ (k, (substitute (render pre).1 segs).1) :: tail := by
+  unfold render
+  rw [renderFrom_append]
+  simp only [renderFrom]
+  obtain ⟨tail, ht⟩ := renderFrom_extends ((renderFrom [] pre).1 ++ [(k, (substitute (renderFrom [] pre).1 segs).1)]) post
+  exact ⟨tail, by rw [ht]; simp⟩
+
+open SnootyVerif.Constants in
+/-- … and the diagnostics of the table are those of its entries, in table order. -/
+theorem constants_diags_append (pre rest : List (String × List Seg)) :
+    (render (pre ++ rest)).2 = (render pre).2 ++ (renderFrom (render pre).1 rest).2 := by
+  unfold render
+  rw [renderFrom_append]
+
+open SnootyVerif.Constants in
+/-- forward reference, backward reference, self reference (the table of the seeded-change demo) -/
+example : render [("base", [.lit "1"]), ("pkg", [.lit "mongodb-", .ref "version", .lit ".tgz"]),
+                  ("version", [.ref "major", .lit ".", .ref "base"]), ("major", [.lit "7"]),
+                  ("selfref", [.lit "x", .ref "selfref"])]
+    = ([("base", "1"), ("pkg", "mongodb-" ++ zwsp ++ ".tgz"), ("version", zwsp ++ ".1"), ("major", "7"),
+        ("selfref", "x" ++ zwsp)], ["version", "major", "selfref"]) := by decide
 
 end SnootyVerif.C16
